@@ -33,6 +33,17 @@ impl C16 {
                     h.out.count("probes_sending_to_the_proxy_itself");
                 }
             }
+            {
+                // now and then the recipient of a bank send is no well-formed address (the bank's business, not the proxy's)
+                let mut side = h.rng.clone();
+                side.below(4242);
+                if side.chance(1, 10) {
+                    if let cosmwasm_std::CosmosMsg::Bank(cosmwasm_std::BankMsg::Send { to_address, .. }) = &mut msg {
+                        *to_address = ["recipient", "", "COSMWASM1QQQQ", "cosmwasm1notchecksummed"][side.below_usize(4)].to_string();
+                        h.out.count("probes_sending_to_a_malformed_recipient");
+                    }
+                }
+            }
             if h.rng.chance(1, 10) {
                 // a call the proxy is asked to make to ITSELF (administration or a nested relay)
                 let body: &[u8] = match h.rng.below(6) {
@@ -130,6 +141,7 @@ impl Monitor for C16 {
     fn mandatory(&self) -> Vec<&'static str> {
         vec![
             "probes_calling_the_proxy_itself",
+            "probes_sending_to_a_malformed_recipient",
             "probes_sent_by_a_proxy_that_is_its_own_admin",
             "states_probed_at_the_end_of_height_or_time",
             "can_execute_true",
